@@ -275,7 +275,12 @@ async fn do_between(
             rig.settle().await;
         }
         Between::BroadcastControl => {
-            let f = Fragment::request(9, func::DIRECT_OPERATE_NR, ra::h_prefixed8(41, 2, &[(0x21, vec![0x55, 0x66, 0])])).encode();
+            let f = Fragment::request(
+                9,
+                func::DIRECT_OPERATE_NR,
+                ra::h_prefixed8(41, 2, &[(0x21, vec![0x55, 0x66, 0])]),
+            )
+            .encode();
             let b = rig.frame_fragment(MASTER_ADDR, 0xFFFD, &f);
             rig.send_raw(&b);
             rig.settle().await;
@@ -421,7 +426,9 @@ async fn run_case(case: &Case) -> CaseOut {
                     rig.settle().await;
                     let f = obs.take(&mut rig, &mut out);
                     // answered now, with events: confirmation requested
-                    if f.iter().any(|b| b[1] == func::RESPONSE && b[0] & 0x0F == case.seq && b[0] & 0x20 != 0) {
+                    if f.iter().any(|b| {
+                        b[1] == func::RESPONSE && b[0] & 0x0F == case.seq && b[0] & 0x20 != 0
+                    }) {
                         series_seq = Some(case.seq);
                         out.nontrivial = true;
                     } else {
@@ -480,7 +487,10 @@ async fn run_case(case: &Case) -> CaseOut {
 
     // --- first transmission (for MidSeries the READ has been sent already) ---
     let mut first_reply: Option<Vec<u8>> = None;
-    if !matches!(case.placement, Placement::MidSeries(_) | Placement::DeferredRead) {
+    if !matches!(
+        case.placement,
+        Placement::MidSeries(_) | Placement::DeferredRead
+    ) {
         rig.send_fragment(&req_bytes);
         rig.settle().await;
         let f = obs.take(&mut rig, &mut out);
@@ -557,7 +567,9 @@ async fn run_case(case: &Case) -> CaseOut {
             {
                 out.fail(Fail::new("repeat-not-answered", format!("repeat #{} of request func {} in idle got no reply although the first transmission was answered", i + 1, req.func)));
             }
-        } else if let (Placement::MidSeries(_) | Placement::DeferredRead, Some(_)) = (&case.placement, series_seq) {
+        } else if let (Placement::MidSeries(_) | Placement::DeferredRead, Some(_)) =
+            (&case.placement, series_seq)
+        {
             // (3) a READ repeated while its own series awaits a confirm: whatever is sent must be a fragment sent before
             for r in &replies {
                 out.label("echo_seen");
